@@ -73,7 +73,7 @@ v["index"] = 0
 expect_problem("stockobject", replay_stockobject.run_history, v, lambda b: b["hist"][1].__setitem__("driver", 2))
 
 print("1b. binding of the trace specifications: one corrupted field of a recorded trace must lead to REJECTED")
-from harness import trace_driver, trace_massbalance, trace_dimsets, trace_stocks
+from harness import trace_driver, trace_massbalance, trace_dimsets, trace_stocks, trace_tables
 
 
 def expect_rejection(name, batch, validate, corrupt):
@@ -122,6 +122,16 @@ def corrupt_st(b):
                 return tid
 
 
+def corrupt_tab(b):
+    for tid, tr in enumerate(b["traces"], start=1):
+        for e in tr["events"]:
+            if e["outcome"] == "ok" and not e["extraitem"] and not e["anon"] and any(v not in (0,) for v in e["post"]):
+                i = next(k for k, v in enumerate(e["post"]) if v != 0)
+                e["post"][i] += 1
+                return tid
+
+
+expect_rejection("tables", trace_tables.record_batch(8, 6, 5), trace_tables.validate_batch, corrupt_tab)
 expect_rejection("stocks", trace_stocks.record_batch(8, 10, 5), trace_stocks.validate_batch, corrupt_st)
 expect_rejection("workspace", trace_driver.record_batch(0, 6, 12, 5), trace_driver.validate_batch, corrupt_ws)
 expect_rejection("massbalance", trace_massbalance.record_batch(0, 6, 12, 5), trace_massbalance.validate_batch, corrupt_mb)
